@@ -4,7 +4,7 @@ import sys, subprocess, os, tempfile
 f, line = sys.argv[1], int(sys.argv[2])
 src = open(f).read().split('\n')
 d = tempfile.mkdtemp(prefix="ropeverif-goals-")
-p = os.path.join(d, "G.v")
+p = os.path.join(d, os.path.basename(f))
 open(p, 'w').write('\n'.join(src[:line]) + '\nShow.\n')
 coq = os.path.join(os.path.dirname(os.path.dirname(os.path.abspath(__file__))), "coq")
 r = subprocess.run(['coqc', '-w', '-all', '-Q', coq, 'RopeVerif', p], capture_output=True, text=True, timeout=600)
